@@ -6,12 +6,13 @@ import Driver.C17
 namespace Driver.C13Prof
 open Qryn Qryn.Sql Qryn.Prof Qryn.Confine
 
-def sels? (s : String) : Option (List Selector) :=
+def sels? (s : String) : Option (List (Selector × Bool)) :=
   Driver.C17.allSome ((Driver.C17.parseList s).map Driver.C17.parseSelector)
 
 /-- the global and key/value conditions `getMatchers` makes of a selector list -/
 def conds? (s : String) : Option (List PCond × List PCond) := do
-  let q ← Prof.plan "" [] [] (← sels? s)
+  let ss ← sels? s
+  let q ← Prof.plan (Driver.C17.greOf ss) "" [] [] (ss.map (·.1))
   some (q.globals, q.kvs)
 
 def bytesList? (s : String) : Option (List Bytes) := (Driver.C17.parseList s).mapM ofHex
